@@ -616,3 +616,172 @@ class TransProp:
 
 
 REGISTRY["C15"] = TransProp()
+
+
+# =========================================================================== C08 / C11 local search
+class LsFixProp(PipeProp):
+    """C08: trajectories of the real local search (hook H1) + re-run on its own result."""
+    INVS = ["P_C08_descent", "P_C08_result", "P_C08_fix", "P_C06"]
+
+    def collect_ls(self, prop, info, out):
+        viols = run_tlc_chunks("TracePipe", self.INVS, info["chunks"], "TracePipe/C08", out)
+        by_chunk = {}
+        for m in info["instances"]:
+            by_chunk.setdefault(m["chunk"], []).append(m)
+        traces = {}
+        for ci, v in viols:
+            if ci not in traces:
+                traces[ci] = common.read_ndjson(info["chunks"][ci])
+            tr = traces[ci]
+            m = [x for x in by_chunk[ci] if x["first"] <= v["l"] <= x["last"]][0]
+            ev = tr[v["l"] - 1]
+            inst = self.instance_of(info, m["name"])
+            events = tr[m["first"] - 1:m["last"]]
+            sig = pipe_signature(prop, v["name"], ev, events)
+            payload = {"property": prop, "kind": "lsfix", "formula": v["name"], "signature": sig, "instance": inst,
+                       "input": gen.render(inst), "event": {k: ev[k] for k in ev if k not in ("S", "O")}}
+            out.findings.append(Finding(prop, v["name"], m["name"], sig, "event=%s %s" % (ev["ev"], ev.get("label", "")), payload))
+        out.traces += len(info["instances"])
+
+    def corpus(self, tier, seed, instances=None):
+        n = 220 if tier == "quick" else 2000
+        return pipeline.corpus(tier, seed, "release", n=n, tag="lsfix", cmd=("ls", "--mode", "fix"),
+                               only_slots=True, seed_shift=31, instances=instances, per_instance_timeout=120)
+
+    def run(self, prop, tier, seed):
+        out = Outcome()
+        info = self.corpus(tier, seed)
+        self.collect_ls(prop, info, out)
+        # the trajectories inside the full pipeline as well
+        pinfo = pipeline.corpus(tier, seed, "release")
+        self_inv = ["P_C08_descent", "P_C08_result"]
+        pv = run_tlc_chunks("TracePipe", self_inv, pinfo["chunks"], "TracePipe/C08/pipe", out)
+        by_chunk = {}
+        for m in pinfo["instances"]:
+            by_chunk.setdefault(m["chunk"], []).append(m)
+        for ci, v in pv:
+            m = [x for x in by_chunk[ci] if x["first"] <= v["l"] <= x["last"]][0]
+            inst = gen.gen_instance(pinfo["seed"], pinfo["index"][m["name"]])
+            payload = {"property": prop, "kind": "pipe", "formula": v["name"], "profile": "release",
+                       "signature": v["name"], "instance": inst, "input": gen.render(inst)}
+            out.findings.append(Finding(prop, v["name"], m["name"] + "/pipeline", v["name"], "pipeline", payload))
+        steps = sum(m["nsteps"] for m in info["instances"])
+        with_steps = sum(1 for m in info["instances"] if m["nsteps"] > 0)
+        out.coverage.update({"instances_with_slots": len(info["instances"]), "accepted_steps": steps,
+                             "trajectories_with_steps": with_steps,
+                             "max_trajectory": max([m["nsteps"] for m in info["instances"]] + [0]),
+                             "pipeline_steps": sum(m["nsteps"] for m in pinfo["instances"]),
+                             "formulas": self.INVS})
+        if steps < 20 or with_steps < 5:
+            raise ToolError("vacuous C08 corpus: only %d accepted steps in %d trajectories" % (steps, with_steps))
+        for m in info["instances"][:3]:
+            out.samples.append({"instance": m["name"], "accepted_steps": m["nsteps"], "status": m["status"]})
+        out.assumptions = [
+            "instances with maintenance slots from lib/gen.py; start = improve_depots(MinCostFlowSolver::solve())",
+            "objectives are recomputed by the specification from the projected schedules (never read from the caches)",
+            "hook H1 records the schedule handed to function_between_steps (the accepted one)",
+        ]
+        return out
+
+    def replay(self, prop, path):
+        with open(path) as f:
+            payload = json.load(f)
+        inst = payload["instance"]
+        out = Outcome()
+        if payload.get("kind") == "pipe":
+            info = pipeline.corpus("quick", 0, "release", instances=[inst])
+            info["adhoc"] = {inst["name"]: inst}
+            pv = run_tlc_chunks("TracePipe", ["P_C08_descent", "P_C08_result"], info["chunks"], "TracePipe/C08", out)
+            for ci, v in pv:
+                out.findings.append(Finding(prop, v["name"], inst["name"], v["name"], "pipeline", payload))
+            return out
+        info = self.corpus("quick", 0, instances=[inst])
+        info["adhoc"] = {inst["name"]: inst}
+        self.collect_ls(prop, info, out)
+        return out
+
+
+REGISTRY["C08"] = LsFixProp()
+
+
+class LsCandProp(PipeProp):
+    """C11: all candidates of schedules reached by random walks through the neighbourhood."""
+    INVS = ["P_C11_inv", "P_C11_caches", "P_C11_enum", "P_C11_project", "P_C06"]
+
+    def corpus(self, tier, seed, instances=None):
+        n = 48 if tier == "quick" else 600
+        steps = 4 if tier == "quick" else 8
+
+        def extra(k, I):
+            return {"steps": steps, "seed": seed * 1000 + k}
+
+        return pipeline.corpus(tier, seed, "release", n=n, tag="lscand", cmd=("ls", "--mode", "cand", "--max-cands", "150"),
+                               extra=extra, seed_shift=57, instances=instances, per_instance_timeout=120, chunk=6)
+
+    def collect_c(self, prop, info, out):
+        viols = run_tlc_chunks("TracePipe", self.INVS, info["chunks"], "TracePipe/C11", out, max_parallel=8, workers=2)
+        by_chunk = {}
+        for m in info["instances"]:
+            by_chunk.setdefault(m["chunk"], []).append(m)
+        traces = {}
+        for ci, v in viols:
+            if ci not in traces:
+                traces[ci] = common.read_ndjson(info["chunks"][ci])
+            tr = traces[ci]
+            m = [x for x in by_chunk[ci] if x["first"] <= v["l"] <= x["last"]][0]
+            ev = tr[v["l"] - 1]
+            inst = self.instance_of(info, m["name"])
+            events = tr[m["first"] - 1:m["last"]]
+            sig = pipe_signature(prop, v["name"], ev, events)
+            if ev["ev"] in ("cand", "candfail"):
+                sig += ":" + ev.get("swap", "").split(" ")[0]
+            payload = {"property": prop, "kind": "lscand", "formula": v["name"], "signature": sig, "instance": inst,
+                       "input": gen.render(inst), "seed": info["seed"], "event": {k: ev[k] for k in ev if k not in ("S", "O")},
+                       "index": info["index"].get(m["name"], 0)}
+            out.findings.append(Finding(prop, v["name"], "%s@%d" % (m["name"], v["l"] - m["first"]), sig,
+                                        "event=%s %s" % (ev["ev"], ev.get("swap", ev.get("msg", ""))[:80]), payload))
+        out.traces += len(info["instances"])
+
+    def run(self, prop, tier, seed):
+        out = Outcome()
+        info = self.corpus(tier, seed)
+        self.collect_c(prop, info, out)
+        ncand = sum(m["ncand"] for m in info["instances"])
+        nenum = sum(m["nenum"] for m in info["instances"])
+        kinds = {}
+        for c in info["chunks"]:
+            for e in common.read_ndjson(c):
+                if e["ev"] == "cand":
+                    k = e["swap"].split(" ")[0]
+                    kinds[k] = kinds.get(k, 0) + 1
+        out.coverage.update({"instances": len(info["instances"]), "candidates_validated": ncand,
+                             "candidates_enumerated": nenum, "candidates_by_swap": kinds, "formulas": self.INVS})
+        need = ["SpawnVehicleForMaintenance", "PathExchange", "AddTripForHitchHiking", "RemoveSingleNode"]
+        missing = [k for k in need if not kinds.get(k)]
+        if missing or ncand < 500:
+            raise ToolError("vacuous C11 corpus: %d candidates, missing swap kinds %s" % (ncand, missing))
+        out.samples.append({"instance": info["instances"][0]["name"], "candidates": info["instances"][0]["ncand"]})
+        out.assumptions = [
+            "walks move to a uniformly random candidate (not the best one); when a schedule has more than 150 candidates a "
+            "random residue class of them is projected (all are generated, so a panic in any of them is seen)",
+            "neighbourhood = RSSchedParallelNeighborhood with the limits used by build_local_search_solver (3:00:00, 0:10:00)",
+        ]
+        return out
+
+    def replay(self, prop, path):
+        with open(path) as f:
+            payload = json.load(f)
+        inst = payload["instance"]
+        out = Outcome()
+        insts = [gen.gen_instance(0, 0)] * 0 + [inst]
+        n = 4
+        info = pipeline.corpus("quick", payload.get("seed", 0) - 57, "release", instances=insts, tag="lscand",
+                               cmd=("ls", "--mode", "cand", "--max-cands", "150"),
+                               extra=lambda k, I: {"steps": 4, "seed": (payload.get("seed", 57) - 57) * 1000 + payload.get("index", 0)},
+                               per_instance_timeout=120, chunk=6)
+        info["adhoc"] = {inst["name"]: inst}
+        self.collect_c(prop, info, out)
+        return out
+
+
+REGISTRY["C11"] = LsCandProp()
